@@ -81,6 +81,12 @@ def proposal_filter(cx):
         cx.check(bool(decode) and bool(heads), key + ":anchors", "conf-change decoding and the entry loop were located")
         escaped = False
         work = [n for n in range(len(g.nodes)) if g.nodes[n][0] in decode]
+        # ... and from the moment the entry is KNOWN to be a membership change (before any decoding: an entry with
+        # an empty payload is a valid leave-joint change and must go through the same filter)
+        for n0 in range(len(g.nodes)):
+            for m0, lits0 in g.edges[n0] or []:
+                if any(l[0] == "in" and _is_entry_type(l[1]) and l[2] and l[2] <= CC_KINDS for l in lits0):
+                    work.append(m0)
         seen = set()
         while work:
             n = work.pop()
@@ -336,6 +342,43 @@ def restore_roundtrip(cx):
     reads = cx.prog.readset_short(strip_generics(rf.key))
     for f in CS_FIELDS:
         cx.check("ConfState." + f in reads, "restore:reads:" + f, "confchange::restore reads ConfState.%s" % f)
+    # the change lists the restore replays: outgoing = [add each outgoing voter]; incoming = [remove each outgoing voter]
+    # THEN [add voters; add-learner learners; add-learner learners_next]  (a removal replayed after an add-learner of
+    # the same id would wipe the staged learner again)
+    tcs1 = cx.fn("restore::to_conf_change_single")
+    a1 = cx.prog.A(tcs1)
+    g1 = cx.pg(tcs1)
+    iters, pushes = [], []
+    for c in cx.prog.all_calls:
+        if c.fn is not tcs1:
+            continue
+        if c.data["callee"].endswith("into_iter") or c.data["callee"].endswith("::iter"):
+            a0 = call_args(cx, c)[0]
+            flds = [x[2].split(".")[1] for x in walk(a0) if x[0] == "field" and x[2].startswith("ConfState.")]
+            if flds:
+                iters.append((c, flds[0]))
+        if c.data["callee"].endswith("Vec::push"):
+            args = call_args(cx, c)
+            kind = [x[2] for x in walk(args[1]) if x[0] == "enum" and x[1].endswith("ConfChangeType")]
+            lst = a1.body.local_name(args[0][1]) if args[0][0] == "local" else None
+            pushes.append((c, args[0], kind[0] if kind else None))
+    seq = []
+    for c, lst, kind in pushes:
+        # the iteration this push belongs to: the closest dominating iterator creation
+        doms = [(ic, fl) for ic, fl in iters if g1.dominated_by_block(c.at, lambda b, ic=ic: b == ic.block)]
+        own = None
+        for ic, fl in doms:
+            if all(ic2 is ic or g1.dominated_by_block(ic.at, lambda b, ic2=ic2: b == ic2.block) for ic2, _ in doms):
+                own = (ic, fl)
+        seq.append((c, lst, kind, own))
+    want = {("AddNode", "voters_outgoing"), ("RemoveNode", "voters_outgoing"), ("AddNode", "voters"), ("AddLearnerNode", "learners"), ("AddLearnerNode", "learners_next")}
+    got = {(k, o[1]) for c, l, k, o in seq if o}
+    cx.check(got == want, "replay:lists", "to_conf_change_single emits add(outgoing), remove(outgoing), add(voters), add-learner(learners), add-learner(learners_next) (found %s)" % sorted(got))
+    rm = [o[0] for c, l, k, o in seq if o and (k, o[1]) == ("RemoveNode", "voters_outgoing")]
+    later = [(k, o[1], o[0]) for c, l, k, o in seq if o and (k, o[1]) in {("AddNode", "voters"), ("AddLearnerNode", "learners"), ("AddLearnerNode", "learners_next")}]
+    same_list = len({l for c, l, k, o in seq if o and (k, o[1]) != ("AddNode", "voters_outgoing")}) == 1 and len({l for c, l, k, o in seq}) == 2
+    oko = bool(rm) and len(later) == 3 and all(g1.dominated_by_block(ic.at, lambda b: b == rm[0].block) for _, _, ic in later)
+    cx.check(oko and same_list, "replay:order", "in the incoming list every removal of an outgoing voter comes before the additions (voters, learners, staged learners), and the outgoing list holds only the outgoing voters")
     eqf = cx.fn("confstate::conf_state_eq")
     reads = cx.prog.readset_short(strip_generics(eqf.key))
     for f in CS_FIELDS:
